@@ -102,6 +102,18 @@ CHECKS = {
             "Operand values come from two fills; redundant PRE bytes in front of instructions without internal-memory operands are "
             "out of scope; five root-cause classes are recorded as known findings (mostly pinned by the repository's assembler tests).",
             "DESIGN.md section 4, C09"),
+    "C10": ("exploration",
+            "exhaustive enumeration of all statement sequences up to a bounded length over a palette of statement templates, each "
+            "assembled by the real two-pass Assembler and judged against a reference layout; all ordered pairs of assemble() calls "
+            "on one object vs fresh objects",
+            "Every statement is labelled; symbolic operands refer forwards and backwards; sections, numeric and symbolic .ORG, "
+            "defb/defw/defl/defs/defm. Reference: per-section pointers from the documented bases, bss emits nothing, each "
+            "statement's bytes are what the real assembler emits for that statement alone at its address with symbols replaced "
+            "by values, near jumps/calls to another page must be rejected; image and Assembler.symbols must match.",
+            "Programs whose layout the statement does not define (forward/self-referential symbolic .ORG, .ORG or instructions inside "
+            "bss, overlapping statements) are only required not to be accepted when one of their statements alone is rejected. "
+            "Statement encodings themselves are C09's subject.",
+            "DESIGN.md section 4, C10"),
     "C11": ("model_checking",
             "explicit-state exploration of store/load histories on the real Python PCE500Memory and Rust MemoryImage for a "
             "product of memory configurations, each transition judged against the implementation's own pre-state with a "
